@@ -265,7 +265,38 @@ pub fn run(ctx: &Ctx) -> i32 {
                         continue;
                     }
                 };
-                let diags = a.all_diags();
+                let mut diags = a.all_diags();
+                // ---- every fourth case: the same program spread over an include tree; a diagnostic
+                // must then sit in the file, and on the line of that file, where the offending text is
+                let mut spread = false;
+                if k % 4 == 3 {
+                    let tree = super::c15::make_tree(&c.printed.text, &mut rng, 2);
+                    if tree.files.len() > 1 {
+                        if let Ok(ta) = crate::rva::guarded(|| crate::rva::analyze_with(crate::rva::MemReader::new(&tree.files), FILE)) {
+                            // (file, line in file) -> line of the pasted text
+                            let back: std::collections::HashMap<(String, usize), usize> = tree.origin.iter().enumerate().map(|(l, o)| (o.clone(), l)).collect();
+                            diags = ta
+                                .all_diags()
+                                .into_iter()
+                                .map(|mut d| {
+                                    match back.get(&(d.file.clone(), d.span.start.line)) {
+                                        Some(l) => {
+                                            let dl = d.span.end.line - d.span.start.line;
+                                            d.span.start.line = *l;
+                                            d.span.end.line = *l + dl;
+                                            d.file = FILE.to_string();
+                                        }
+                                        // a place that holds no text of the program: it cannot be the site
+                                        None => d.span.start.line = usize::MAX,
+                                    }
+                                    d
+                                })
+                                .collect();
+                            spread = true;
+                            acc.count("judged_in_an_include_tree", 1);
+                        }
+                    }
+                }
                 let v = judge(&c, &site, &diags);
                 acc.count(&format!("judged:{}", kind.name()), 1);
                 acc.note("classes_judged", kind.name());
@@ -287,8 +318,9 @@ pub fn run(ctx: &Ctx) -> i32 {
                     acc.violation(
                         format!("C05|{}|{}|{}{shape}", kind.name(), v.why, reg_class(site.reg)),
                         format!(
-                            "planted {} ({}): expected {:?} at the site, got {:?}",
+                            "planted {}{} ({}): expected {:?} at the site, got {:?}",
                             kind.name(),
+                            if spread { " in a program spread over an include tree" } else { "" },
                             v.why,
                             expected_codes(*kind),
                             listed
